@@ -360,6 +360,7 @@ def signature(c, dev):
 # ----------------------------------------------------------------------------- checking one program
 NIL_RE = re.compile(r"LOGIC ERROR IN CODE >> ([^\s:]+):(\d+):(\d+): unwrap of `nil`")
 POS_RE = re.compile(r"--> ([^\s:]+):(\d+):(\d+)")
+ANYPOS_RE = re.compile(r"([^\s:`'\"()]+\.ms):(\d+):(\d+)")
 
 
 def check_program(prog, break_or=False):
@@ -395,17 +396,23 @@ def check_program(prog, break_or=False):
             ln += 1
         if break_or == "get_col":           # oracle validation: expect a column left of the get expression
             c0, c1 = 1, c0 - 1
+        # wording-independent: the report must be the defined failure "use of nil" and its cause must carry a source
+        # position `main.ms:<line>:<col>`; that position has to lie inside the `get` expression
         m = NIL_RE.search(r.err)
+        cause = r.err.split("Caused by:", 1)[1] if "Caused by:" in r.err else r.err
+        named = [(f, int(l_), int(c_)) for f, l_, c_ in ANYPOS_RE.findall(cause)]
+        is_nil = m is not None or core.classify_failure(r) == ("defined", "nil")
+        hit = [p_ for p_ in named if os.path.basename(p_[0]) == "main.ms" and p_[1] == ln and c0 <= p_[2] <= c1]
         if r.cls == "ok":
             dev = "get_nil_did_not_stop"
         elif got != lines:
             dev = "output_before_get_nil"
-        elif r.cls != "fail" or core.BANNER not in r.err or not m:
+        elif r.cls != "fail" or core.BANNER not in r.err or not is_nil or not named:
             dev = "get_nil_wrong_failure"
-        elif m.group(1) != "main.ms" or int(m.group(2)) != ln or not (c0 <= int(m.group(3)) <= c1):
+        elif not hit:
             dev = "get_nil_wrong_position"
         else:
-            res["position"] = (int(m.group(2)), int(m.group(3)), (ln, c0, c1))
+            res["position"] = (hit[0][1], hit[0][2], (ln, c0, c1))
     if dev is None:
         res.update(kind="agree", how="run")
         return res
